@@ -46,7 +46,7 @@ def exVal : Val :=
 theorem ex_hyps : exTy.wf ∧ Ty.rtShape false exTy ∧ exTy.isPtr = false ∧ exTy.hasTy exVal
     ∧ (marshal exTy exVal).length < 2 ^ 63 := by
   refine ⟨?_, ?_, rfl, ?_, by decide +kernel⟩
-  · simp [exTy, Ty.wf, fieldsWf, validWidth, Ty.wt, Ty.isMap]
+  · simp [exTy, Ty.wf, fieldsWf, validWidth, Ty.wt, Ty.isMap, Ty.isProtoSlice]
   · simp [exTy, Ty.rtShape, fieldsRtShape, Ty.isPtr, Ty.keySafe, fieldsKeySafe]
   · simp [exTy, exVal, Ty.hasTy, fieldsHaveTy, intRange, keysDistinct, Val.beq, Val.beqList]
 
